@@ -84,7 +84,8 @@ theorem int_roundtrip (x : BitVec 32) (rest : List Nat) :
 /-- **Avro value round trip**: for every schema tree and every value tree the writer accepts
 for it, `Decoder::decode` applied to the writer's bytes followed by anything returns exactly
 the value and leaves exactly what followed.  Covers null, boolean, int/long (zig-zag varint),
-float/double (bit patterns), bytes/string (length prefix), fixed, enum, nullable unions in
+float/double (bit patterns), bytes/string (length prefix), fixed, enum, decimals (bytes- and
+fixed-backed), nullable unions in
 both branch orders (the writer's `0x00`/`0x02` byte against the reader's `branch != 0` /
 `branch == 0` test), general unions, records (concatenation), arrays and maps (the writer's
 single positive block + terminator against the reader's block loop). -/
@@ -96,6 +97,46 @@ example : wt (.record [.nullable false (.array (.nullable true .string)), Schema
     (.list [.some (.list [.some (.bytes [0xF0, 0x9F, 0x98, 0x80]), .none]),
             .list [.list [.bytes [107], .long (BitVec.ofInt 64 (-1))]],
             .union 2 (.fixed [1, 2])]) = true := by decide
+
+/-- **Avro decimal, bytes-backed** (`minimal_twos_complement` → `sign_cast_to`): for every
+unscaled value, given as the `N` big-endian two's-complement bytes `iN::to_be_bytes` produces
+(`N` = 16 for Decimal128, 32 for Decimal256, any `N ≥ 1` here), the reader's sign extension of
+the writer's minimal payload is the original `N` bytes — so the value comes back with its sign.
+The proof uses the redundancy test `((be[k] ^ sign_byte) & 0x80) == 0` through the regenerated
+constant `M_DROP_MASK`; editing that test breaks it. -/
+theorem decimal_bytes_roundtrip (be : List Nat) (N : Nat) (hlen : be.length = N) (hN : 1 ≤ N)
+    (hbytes : ∀ b ∈ be, b < 256) : signCast N (minimalTwosComplement be) = some be :=
+  signCast_minimal be N hlen hN hbytes
+
+/-- 128 as an i128 needs the leading `0x00`; -129 needs the leading `0xFF` -/
+example : minimalTwosComplement (List.replicate 15 0 ++ [128]) = [0, 128] ∧
+    minimalTwosComplement (List.replicate 14 255 ++ [255, 127]) = [255, 127] ∧
+    minimalTwosComplement (List.replicate 15 0 ++ [127]) = [127] := by decide
+
+/-- **The minimal payload denotes the same integer** as the full-width bytes (`beSigned` is
+`from_be_bytes` after sign extension). -/
+theorem decimal_payload_value (be : List Nat) (hbytes : ∀ b ∈ be, b < 256) :
+    beSigned (minimalTwosComplement be) = beSigned be := beSigned_minimal be hbytes
+
+/-- **The payload is the shortest two's-complement encoding** of that integer, as the Avro
+specification of `decimal` over `bytes` prescribes and every other implementation writes: no
+byte string denoting the same integer is shorter than what `minimal_twos_complement` returns. -/
+theorem decimal_payload_shortest (be bs : List Nat) (hbe : ∀ b ∈ be, b < 256) (hbs : ∀ b ∈ bs, b < 256)
+    (hne : bs ≠ []) (hne' : be ≠ []) (hv : beSigned bs = beSigned be) :
+    (minimalTwosComplement be).length ≤ bs.length := minimal_is_shortest be bs hbe hbs hne hne' hv
+
+example : beSigned [0, 128] = 128 ∧ beSigned [128] = -128 ∧ beSigned [255, 127] = -129 := by decide
+
+/-- **Avro decimal, fixed(n)-backed** (`write_sign_extended` → `sign_cast_to`): whenever the
+writer accepts the value for the fixed size `n` (truncating redundant sign bytes, copying, or
+sign-extending), it writes exactly `n` bytes and the reader recovers the original `N` bytes. -/
+theorem decimal_fixed_roundtrip (be out : List Nat) (N n : Nat) (hlen : be.length = N) (hN : 1 ≤ N)
+    (hn : 1 ≤ n) (hbytes : ∀ b ∈ be, b < 256) (hw : writeSignExtended be n = some out) :
+    out.length = n ∧ signCast N out = some be :=
+  signCast_writeSignExtended be out N n hlen hN hn hbytes hw
+
+example : writeSignExtended (List.replicate 14 255 ++ [255, 127]) 4 = some [255, 255, 255, 127] ∧
+    writeSignExtended (List.replicate 14 0 ++ [128, 0]) 1 = none := by decide
 
 /-- **Row / record round trip**: a whole row (the fields of the top-level record in schema
 order, as `RecordEncoder::encode` writes them) decodes back field by field. -/
